@@ -388,6 +388,8 @@ def _c19_helper_returns(fn):
         for i, st in enumerate(body):
             if (isinstance(st, ast.Expr) and isinstance(st.value, ast.Constant) and isinstance(st.value.value, str)):
                 continue
+            if isinstance(st, (ast.Import, ast.ImportFrom)):
+                continue
             if isinstance(st, ast.Return) and st.value is not None:
                 rets.append(st.value)
             elif isinstance(st, ast.If):
@@ -441,7 +443,46 @@ def _c19_scan(fn, helpers=None):
     params, bound = _c19_names(fn)
     helpers = helpers or {}
 
+    def own_nodes(node):
+        for ch in ast.iter_child_nodes(node):
+            if isinstance(ch, (ast.FunctionDef, ast.AsyncFunctionDef, ast.ClassDef, ast.Lambda)):
+                continue
+            yield ch
+            yield from own_nodes(ch)
+
+    def is_opener_call(n):
+        return isinstance(n, ast.Call) and (_c19_callee(n) in _C19_OPENERS or ast.unparse(n.func) in _C19_OPENERS_DOTTED)
+
+    # a local that is assigned exactly once, from an expression that opens something (`wb = load_workbook(f)`), stands
+    # for that expression where it is used as / inside a with-item (`with closing(wb):` = `with closing(load_workbook(f)):`)
+    stores = {}
+    for n in own_nodes(fn):
+        if isinstance(n, ast.Name) and isinstance(n.ctx, ast.Store):
+            stores[n.id] = stores.get(n.id, 0) + 1
+    defs = {}
+    for n in own_nodes(fn):
+        if (isinstance(n, ast.Assign) and len(n.targets) == 1 and isinstance(n.targets[0], ast.Name)
+                and stores.get(n.targets[0].id) == 1 and n.targets[0].id in bound
+                and any(is_opener_call(c) for c in ast.walk(n.value)) and not isinstance(n.value, ast.IfExp)):
+            defs[n.targets[0].id] = n.value
+    # names used inside a with-item / an ExitStack.enter_context argument: their defining opener is managed there
+    managed = set()
+    for n in own_nodes(fn):
+        items = []
+        if isinstance(n, (ast.With, ast.AsyncWith)):
+            items = [it.context_expr for it in n.items]
+        elif isinstance(n, ast.Call) and isinstance(n.func, ast.Attribute) and n.func.attr == "enter_context":
+            items = list(n.args)
+        for e in items:
+            managed.update(x.id for x in ast.walk(e) if isinstance(x, ast.Name) and x.id in defs)
+    managed_calls = {id(c) for nm in managed for c in ast.walk(defs[nm]) if isinstance(c, ast.Call)}
+
     def cls(name):
+        if name in managed:
+            return _c19_norm(defs[name], cls_plain, helpers)
+        return cls_plain(name)
+
+    def cls_plain(name):
         return "<param>" if name in params else "<local>" if name in bound else name
 
     def txt(node):
@@ -458,11 +499,19 @@ def _c19_scan(fn, helpers=None):
             points.append(["yield", list(ctx)])
         elif isinstance(node, ast.Call):
             name = _c19_callee(node)
-            if (name in _C19_OPENERS or ast.unparse(node.func) in _C19_OPENERS_DOTTED) and not in_item:
+            if is_opener_call(node) and not in_item and id(node) not in managed_calls:
                 bare.append(txt(node))
             if name == "close" and isinstance(node.func, ast.Attribute):
                 closes.append(txt(node.func) + "()")
-            if name in _C19_WRITE_CALLS:
+            if name in ("write_bytes", "write_text") and isinstance(node.func, ast.Attribute):
+                # `Path(p).write_bytes(b)` opens, writes and closes inside the one call: the same as
+                # `with open(p, 'wb') as f: f.write(b)`
+                recv = node.func.value
+                while (isinstance(recv, ast.Call) and ast.unparse(recv.func) in ("Path", "pathlib.Path", "PurePath")
+                       and len(recv.args) == 1):
+                    recv = recv.args[0]
+                points.append(["call <local>.write", list(ctx) + ["open(" + txt(recv) + ")"]])
+            elif name in _C19_WRITE_CALLS:
                 points.append(["call " + txt(node.func), list(ctx)])
         for ch in ast.iter_child_nodes(node):
             expr(ch, ctx, in_item)
@@ -499,56 +548,116 @@ def _c19_scan(fn, helpers=None):
             return alts[0] if len(alts) == 1 else "either(" + ", ".join(alts) + ")"
         return alt(v)
 
-    def stmts(body, ctx):
+    def plain_try_close(st):
+        """`try: … finally: x.close()` for a variable x that was not opened just before: `with closing(x): …`"""
+        if not (isinstance(st, ast.Try) and len(st.finalbody) == 1 and isinstance(st.finalbody[0], ast.Expr)):
+            return None
+        c = st.finalbody[0].value
+        if (isinstance(c, ast.Call) and isinstance(c.func, ast.Attribute) and c.func.attr == "close" and not c.args
+                and isinstance(c.func.value, ast.Name)):
+            return "closing(" + txt(c.func.value) + ")"
+        return None
+
+    def entered(st, stack_vars):
+        """the frame a statement enters through `<ExitStack>.enter_context(E)`: E, or for
+        `x = v if c else st.enter_context(E)` the alternatives nullcontext(v) / E"""
+        def is_enter(n):
+            return (isinstance(n, ast.Call) and isinstance(n.func, ast.Attribute) and n.func.attr == "enter_context"
+                    and isinstance(n.func.value, ast.Name) and n.func.value.id in stack_vars and len(n.args) == 1)
+        v = st.value if isinstance(st, (ast.Assign, ast.Expr, ast.AnnAssign)) else None
+        if v is None:
+            return None
+        if is_enter(v):
+            return txt(v.args[0])
+        if isinstance(v, ast.IfExp):
+            alts = []
+            for br in (v.body, v.orelse):
+                if is_enter(br):
+                    alts.append(txt(br.args[0]))
+                elif isinstance(br, ast.Name):
+                    alts.append("nullcontext(" + txt(br) + ")")
+                else:
+                    return None
+            if any(is_enter(br) for br in (v.body, v.orelse)):
+                alts = sorted(set(alts))
+                return alts[0] if len(alts) == 1 else "either(" + ", ".join(alts) + ")"
+        return None
+
+    def stmts(body, ctx, stack_vars=frozenset()):
         skip = False
+        ctx = list(ctx)
         for i, st in enumerate(body):
             if skip:
                 skip = False
+                continue
+            if stack_vars:
+                fr = entered(st, stack_vars)
+                if fr is not None:
+                    v = st.value
+                    for n in ast.walk(v):
+                        if isinstance(n, ast.Call) and isinstance(n.func, ast.Attribute) and n.func.attr == "enter_context":
+                            for a in n.args:
+                                expr(a, ctx, True)
+                    ctx = ctx + [fr]          # in scope for the rest of the ExitStack body
+                    continue
+            pc = plain_try_close(st)
+            if pc is not None and try_finally_frame(body[i - 1] if i else None, st) is None:
+                inner = ctx + [pc]
+                stmts(st.body, inner, stack_vars)
+                for h in st.handlers:
+                    stmts(h.body, inner, stack_vars)
+                stmts(st.orelse, inner, stack_vars)
                 continue
             frame = try_finally_frame(st, body[i + 1] if i + 1 < len(body) else None)
             if frame is not None:
                 t = body[i + 1]
                 inner = list(ctx) + [frame]
-                stmts(t.body, inner)
+                stmts(t.body, inner, stack_vars)
                 for h in t.handlers:
-                    stmts(h.body, inner)
-                stmts(t.orelse, inner)
+                    stmts(h.body, inner, stack_vars)
+                stmts(t.orelse, inner, stack_vars)
                 skip = True                      # the finally's close is the exit of that frame
                 continue
             if isinstance(st, (ast.FunctionDef, ast.AsyncFunctionDef, ast.ClassDef)):
                 continue
             if isinstance(st, (ast.With, ast.AsyncWith)):
                 inner = list(ctx)
+                sv = set(stack_vars)
                 for it in st.items:
-                    expr(it.context_expr, inner, True)
-                    t = txt(it.context_expr)
+                    ce = it.context_expr
+                    if (isinstance(ce, ast.Call) and _c19_callee(ce) == "ExitStack" and not ce.args
+                            and isinstance(it.optional_vars, ast.Name)):
+                        sv.add(it.optional_vars.id)      # frames are entered inside the body (enter_context)
+                        continue
+                    expr(ce, inner, True)
+                    t = txt(ce)
                     if not t.startswith("<local>"):
                         inner = inner + [t]
-                stmts(st.body, inner)
+                stmts(st.body, inner, frozenset(sv))
             elif isinstance(st, (ast.For, ast.AsyncFor)):
                 if isinstance(st.iter, ast.Call):
                     fors.append(txt(st.iter.func))
                 expr(st.iter, ctx, False)
-                stmts(st.body, ctx)
-                stmts(st.orelse, ctx)
+                stmts(st.body, ctx, stack_vars)
+                stmts(st.orelse, ctx, stack_vars)
             elif isinstance(st, ast.While):
                 expr(st.test, ctx, False)
-                stmts(st.body, ctx)
-                stmts(st.orelse, ctx)
+                stmts(st.body, ctx, stack_vars)
+                stmts(st.orelse, ctx, stack_vars)
             elif isinstance(st, ast.If):
                 expr(st.test, ctx, False)
-                stmts(st.body, ctx)
-                stmts(st.orelse, ctx)
+                stmts(st.body, ctx, stack_vars)
+                stmts(st.orelse, ctx, stack_vars)
             elif isinstance(st, ast.Try) or st.__class__.__name__ == "TryStar":
-                stmts(st.body, ctx)
+                stmts(st.body, ctx, stack_vars)
                 for h in st.handlers:
-                    stmts(h.body, ctx)
-                stmts(st.orelse, ctx)
-                stmts(st.finalbody, ctx)
+                    stmts(h.body, ctx, stack_vars)
+                stmts(st.orelse, ctx, stack_vars)
+                stmts(st.finalbody, ctx, stack_vars)
             elif isinstance(st, ast.Match):
                 expr(st.subject, ctx, False)
                 for c in st.cases:
-                    stmts(c.body, ctx)
+                    stmts(c.body, ctx, stack_vars)
             else:
                 expr(st, ctx, False)
 
@@ -566,6 +675,26 @@ def item_with_frames(repo):
         fn = next(n for n in scope.body if isinstance(n, (ast.FunctionDef, ast.AsyncFunctionDef)) and n.name == name)
         helpers = {n.name: n for n in tree.body
                    if isinstance(n, ast.FunctionDef) and n.name.startswith("_") and n is not fn}
+        # ... and module-private helpers imported from another pdtable module (`from pdtable.io._x import _opened`)
+        for n in tree.body:
+            if isinstance(n, ast.ImportFrom) and n.module is not None:
+                pkg = Path(rel).parent.parts
+                base = list(pkg[: len(pkg) - (n.level - 1)]) if n.level else []
+                mod = base + n.module.split(".")
+                if mod[0] != "pdtable":
+                    continue
+                cand = Path(*mod).with_suffix(".py")
+                if not (Path(repo) / cand).exists():
+                    continue
+                try:
+                    other = _parse(repo, str(cand))
+                except Exception:          # noqa
+                    continue
+                for a in n.names:
+                    if a.name.startswith("_"):
+                        for d in other.body:
+                            if isinstance(d, ast.FunctionDef) and d.name == a.name:
+                                helpers.setdefault(a.asname or a.name, d)
         points, bare, fors, closes = _c19_scan(fn, helpers)
         # the order of the entries carries no meaning for the model (points in exclusive branches, independent calls):
         # each list is sorted, so that re-ordering branches or statements does not change the table
